@@ -242,7 +242,13 @@ template<class H, class Cfg> struct Bfs
           o->apply(op);
           std::string c = o->canon();
           o->finish();
-          if(!foreign().key.empty()) { Violation v(foreign().key, foreign().msg); foreign().key.clear(); throw v; }
+          if(!foreign().key.empty())
+          { // an oracle of another property failed, the check's own oracles held: the other check reports it (two records per key are
+            // kept for the log); for this check the transition counts and the exploration goes on behind it
+            Violation v(foreign().key, foreign().msg); foreign().key.clear();
+            hit("foreign_oracle_failures");
+            if(++violPerKey[v.key] <= 2) { watchdog_arm(watchdogMs); violation(v.key, describe(n.h, op), v.msg); watchdog_arm(watchdogMs); }
+          }
           delete o;
           hit("transitions");
           if(!seen.count(c) && local.insert(c).second)
